@@ -163,9 +163,12 @@ func (e *End) SendMsg(m interface{}) error {
 	if !ok {
 		return fmt.Errorf("netsim: unexpected message type %T", m)
 	}
-	raw, err := p.MarshalVT()
-	if err != nil {
+	// the transport-facing codec entry points, as util.NewProtoStream uses them
+	raw := make([]byte, p.Size())
+	if n, err := p.MarshalTo(raw); err != nil {
 		return err
+	} else if n != len(raw) {
+		return fmt.Errorf("netsim: MarshalTo wrote %d of Size()=%d bytes", n, len(raw))
 	}
 	key := e.Name + ".send"
 	e.l.enter(key)
@@ -226,7 +229,13 @@ func (e *End) RecvMsg(m interface{}) error {
 	}
 	raw := e.in.q[0]
 	e.in.q = e.in.q[1:]
-	return p.UnmarshalVT(raw)
+	err := p.Unmarshal(raw)
+	// a transport reuses its receive buffer as soon as RecvMsg returns: a decoded packet that still points into it
+	// reads garbage from now on
+	for i := range raw {
+		raw[i] = 0xaa
+	}
+	return err
 }
 
 // Pending returns the queue lengths (S->R, R->S).
